@@ -36,9 +36,9 @@ func verifDoc2(focus int) (*openapi2.T, map[string]bool) {
 	maxf := verifNondetFloat64("maximum")
 	verifAssume(maxf == maxf)
 	// where the API lives: scheme list x host, as five combinations
-	origin := choose("origin", 5, 0)
-	schemes := [][]string{{"https"}, {"http"}, {"https", "http"}, {"https"}, {"https"}}[origin]
-	host := []string{"h.example", "h.example", "h.example", "h.example:8443", ""}[origin]
+	origin := choose("origin", 7, 0)
+	schemes := [][]string{{"https"}, {"http"}, {"https", "http"}, {"https"}, {"https"}, {"wss", "https"}, {"ws"}}[origin]
+	host := []string{"h.example", "h.example", "h.example", "h.example:8443", "", "h.example", "h.example"}[origin]
 	doc := &openapi2.T{Swagger: "2.0", Info: openapi3.Info{Title: "t", Version: "1"}, Host: host, BasePath: "/v1", Schemes: schemes,
 		Definitions: map[string]*openapi2.SchemaRef{"Item": {Value: &openapi2.Schema{Type: &openapi3.Types{"object"}, Properties: openapi2.Schemas{
 			"name": {Value: &openapi2.Schema{Type: &openapi3.Types{"string"}, MinLength: minLen}},
